@@ -180,6 +180,8 @@ def run(tier):
         fieldnames = ["f", "n", "s"] + RES
         hist = [{"d": "V", "id": 1}]
         for writer, extra in (("csv", ""), ("csv", "lineterminator=\\n"), ("line", ""), ("line", "verbose=true"), ("text", ""), ("text", "format_spec={f}|{n}|{s}"),
+                              ("text", "format_spec={_source}|{n}|{_classification}|{_version}"),                  # the reserved fields are fields of the record too
+                              ("text", "format_spec={n}:{_generated:%Y-%m-%d}:{_generated.year}"),
                               ("text", "format_spec={s[0]}{n}|{f}|{s.__class__.__name__}"),        # index and attribute access inside the template
                               ("text", "format_spec={n} \u2192 {s}\\t({f}) caf\u00e9 \u4e2d\\n")):     # non-ASCII literal text next to the escapes \t and \n
             p = os.path.join(tmp, "v." + writer)
@@ -212,7 +214,7 @@ def run(tier):
                     c["values_ok"] = bool(ok)
                 else:
                     tpl = extra.split("=", 1)[1].replace("\\t", "\t").replace("\\n", "\n").replace("\\r", "\r") if extra else ""
-                    exp = (tpl.format(f=rec.f, n=rec.n, s=rec.s) if extra else repr(rec)) + "\n"
+                    exp = (tpl.format(f=rec.f, n=rec.n, s=rec.s, _source=rec._source, _classification=rec._classification, _generated=rec._generated, _version=rec._version) if extra else repr(rec)) + "\n"
                     c["values_ok"] = text == exp
             except Exception as e:
                 c["raised"], c["exc"] = True, type(e).__name__ + ":" + str(e)[:80]
@@ -220,16 +222,44 @@ def run(tier):
             c["writer_kind"] = writer
             cases.append(c)
             ctx.case(("value", writer, T, label, extra))
+    # (b2) a GROUPED record (its members' reserved fields sit in the middle of its dict view): every cell under its own name
+    from flow.record import GroupedRecord, RecordDescriptor as _RDg
+
+    Ga, Gb = _RDg("tw/ga", [("varint", "n"), ("string", "s")]), _RDg("tw/gb", [("string", "other"), ("varint", "k")])
+    grp = GroupedRecord("tw/grp", [Ga(1, "left", _generated=gen.GEN, _source="srcA"), Gb("right", 7, _generated=gen.GEN, _source="srcB")])
+    for writer, extra in (("csv", ""), ("csv", "fields=s,other,n"), ("line", ""), ("line", "exclude=_generated,_version")):
+        p = os.path.join(tmp, "g." + writer)
+        url = {"csv": "csvfile://", "line": "line://"}[writer] + p + ("?" + extra if extra else "")
+        c = {"writer": "value:" + writer, "hist": [{"d": "V", "id": 1}], "opts": OPTS[0], "raised": False, "exc": "none", "items": [], "values_ok": False, "readback_checked": False, "readback_ok": True,
+             "T": "grouped", "label": "two members", "extra": extra, "writer_kind": writer}
+        try:
+            with RecordWriter(url) as w:
+                w.write(grp)
+            text = read_text(p)
+            if writer == "csv":
+                rows = list(csv.reader(io.StringIO(text, newline="")))
+                c["values_ok"] = len(rows) == 2 and len(rows[0]) == len(rows[1]) and len(set(rows[0])) == len(rows[0]) and all(cell == text_form(getattr(grp, name)) for name, cell in zip(rows[0], rows[1]))
+                c["values_ok"] &= set(rows[0]) >= ({"s", "other", "n"} if extra else {"n", "s", "other", "k"})
+            else:
+                pairs = re.findall(r"^\s*([A-Za-z_][A-Za-z0-9_]*) = (.*)$", text, re.M)
+                c["values_ok"] = bool(pairs) and all(v == "{}".format(getattr(grp, k)) for k, v in pairs) and {k for k, _ in pairs} >= {"n", "s", "other", "k"}
+        except Exception as e:
+            c["raised"], c["exc"] = True, type(e).__name__ + ":" + str(e)[:80]
+        cases.append(c)
+        ctx.case(("value-grouped", writer, extra))
     # (c) CSV read-back with CsvfileReader for unambiguous content x delimiters
     from flow.record.adapter.csvfile import CsvfileReader
 
     safe = ["abc", "x y", "1", "café", "a-b_c", "", "Z9"]
+    padded = ["  lead", " x", "trail  ", "\tq"]          # blanks at the edge of a cell are part of the cell
     for delim in (",", ";", "\t", "|"):
         for trial in range(3 if not thorough else 12):
             rows = [[ctx.rnd.choice(safe[:5]) for _ in range(3)] for _ in range(ctx.rnd.randint(1, 5))]
             if trial % 2:
                 rows.insert(ctx.rnd.randint(0, len(rows)), ["", "", ""])        # a record whose cells are all empty is still a record
                 rows.append(["", "x", ""])
+            if trial % 3 == 0:
+                rows.append([ctx.rnd.choice([c for c in padded if delim not in c]), "m", ctx.rnd.choice(["trail  ", " x"])])
             p = os.path.join(tmp, "rb.csv")
             with open(p, "w", newline="", encoding="utf-8") as f:
                 wr = csv.writer(f, delimiter=delim)
